@@ -255,7 +255,8 @@ def run(args):
                 ret, outs, eff = C04.evaluate(F, f, None, ["A", "B", "t"])
                 want = "(mul (log (compose (inverse A) B)) t)"
                 ok = ret in ("(compose A (exp %s))" % want, "(compose A (exp (mul t (log (compose (inverse A) B)))))")
-                if not ok and semantic_ok():
+                branches = [x for x in A.walk(f.get("body")) if (x.get("k") == "IfStmt" and not any(y.get("noret") for y in A.walk(x.get("then")))) or x.get("k") in ("ConditionalOperator", "SwitchStmt")]
+                if not ok and semantic_ok() and not branches:      # a data-dependent branch is not covered by the closed-form world of R-SERIES.slerp
                     # another spelling of the same map (e.g. exp(t*log(B*A^-1))*A): accepted because the semantic form holds
                     rep.observations.append("interpolate_slerp<%s> is spelled %s; accepted: R-SERIES.slerp holds" % (G, ret[:120]))
                     ok = True
